@@ -788,3 +788,12 @@ M("c15-neutral-pin-action-order-comment", "C15", "cola/libavoid/actioninfo.cpp",
 M("c15-split-derefs-null-connend", "C15", "cola/libavoid/connector.cpp",
   "        ConnEnd newConnDst = (m_dst_connend) ? *m_dst_connend :\n                ConnEnd(m_dst_vert->point, m_dst_vert->visDirections);",
   "        ConnEnd newConnDst = *m_dst_connend;", mention=["NULLABLE-CONNEND", "splitAtSegment"])
+
+# ---------------------------------------------------------------- C11 / C10 round d
+M("c11-junction-move-overrides-user-change", "C11", "cola/libavoid/junction.cpp",
+  "        bool connPinUpdate = true;\n        m_router->modifyConnector(connEnd->m_conn_ref, connEnd->endpointType(),\n                *connEnd, connPinUpdate);",
+  "        m_router->modifyConnector(connEnd->m_conn_ref, connEnd->endpointType(),\n                *connEnd);", mention=["CONNEND-QUEUE", "JunctionRef::moveAttachedConns"])
+M("c11-checkpoints-window-too-narrow", "C11", "cola/libavoid/geomtypes.cpp",
+  "    else if (indexModifier < 0)\n    {\n        checkpointUpperValue--;", "    else if (indexModifier < 0)\n    {\n        checkpointUpperValue -= 2;", mention=["CHECKPOINTS-ON-SEGMENT"])
+M("c10-pair-of-one-connector", "C10", "cola/libavoid/orthogonal.cpp",
+  "                            (currSegment->connRef != prevSeg->connRef) &&\n", "", mention=["PAIR-IDS-DISTINCT"])
